@@ -1253,7 +1253,7 @@ N_SHARDS = 16
 
 
 def shards(tier, seed):
-    n = int((600 if tier == 'quick' else 6000) * DEV_SCALE)
+    n = int((450 if tier == 'quick' else 6000) * DEV_SCALE)
     return [{'n': n} for _ in range(N_SHARDS)]
 
 
